@@ -238,7 +238,11 @@ func runC10(c *Ctx) {
 	// a failed bind must not leave a reference behind, or a later generation can never release the address
 	for _, m := range findMultiListeners(c, "REFCOUNT") {
 		ruleRefcount(c, m)
+		// "removed keys stop authenticating": a handle of the stopped generation no longer competes for the shared socket
+		ruleClosedGuard(c, m)
 	}
+	// "bad cipher in any service fails the reload": no key is skipped before it was validated unless it is a true duplicate
+	ruleDedup(c, a)
 }
 
 // C10.VALIDATE
